@@ -9,6 +9,7 @@ import Driver.C17
 import Driver.C11
 import Driver.C12
 import Driver.C16
+import Driver.Schema
 /-! `nvdriver`: reads one command per line on stdin, prints one observation line per command.
 Command names may carry type suffixes (`c18.erase.u16`): the model is width-agnostic, so the
 longest registered prefix decides. -/
@@ -29,7 +30,7 @@ partial def loop (hin : IO.FS.Stream) (hout : IO.FS.Stream) : IO Unit := do
   if l.isEmpty then hout.putStrLn "" else
     match l.splitOn " " with
     | cmd :: args =>
-      match Files.ioHandlers.find? (·.1 == cmd) with
+      match (Files.ioHandlers ++ SchemaWalk.ioHandlers).find? (·.1 == cmd) with
       | some (_, h) =>
         let r ← (try h args catch e => pure s!"io-error {e}")
         hout.putStrLn r
